@@ -981,6 +981,9 @@ def run_case(fam, c, model_line):
     real = fam.real(c)
     t1 = time.process_time()
     rec = {"case": c, "status": real["status"], "dis": None, "viol": [], "borderline": False, "region": None}
+    if real["status"] == "assertion" and hasattr(fam, "out_of_domain") and fam.out_of_domain(c):
+        rec["out_of_domain"] = True          # input outside the declared legal ranges, refused by the helper's assert
+        return rec
     try:
         orc = fam.oracle(c, real)
     except Exception as e:   # oracle failure is a machinery error, reported as such
@@ -1114,6 +1117,11 @@ class Ice40:
 
     def first_key(self, real):
         return (real["divr"], real["divf"])
+
+    def out_of_domain(self, c):
+        d = self.d
+        return not (d["clki_freq"][0] <= F(c["clkin"]) <= d["clki_freq"][1]) or \
+            not (d["clko_freq"][0] <= F(c["out"][0]) <= d["clko_freq"][1])
 
     def oracle(self, c, real):
         d = self.d
